@@ -19,11 +19,11 @@ import (
 
 // per-shard facts of the read harness
 type c20shard struct {
-	m        mode.Mode
-	holds    bool // the object's data is in this shard's blob storage / write-cache
-	metaHas  bool // the shard's metabase lists the object (only with a metabase)
-	ioError  bool // the first request to this shard fails with an I/O error
-	calls    int
+	m       mode.Mode
+	holds   bool // the object's data is in this shard's blob storage / write-cache
+	metaHas bool // the shard's metabase lists the object (only with a metabase)
+	ioError bool // the first request to this shard fails with an I/O error
+	calls   int
 }
 
 var c20 struct {
@@ -104,7 +104,23 @@ func VerifC20Read() {
 	case c20.removed || c20.expired:
 		if !degradedHolds {
 			if failing < c20.n {
-				vrt.Assert(err != nil, "a removed or expired object is never returned, even when a shard fails")
+				// what the failing shard holds and whether something makes the engine
+				// read the shards a second time without metadata
+				cls := "the failing shard does not hold the data"
+				if c20.sh[failing].holds {
+					cls = "the failing shard holds the data"
+				}
+				second := false
+				for i := 0; i < c20.n; i++ {
+					f := &c20.sh[i]
+					if f.m.NoMetabase() || (f.metaHas && !f.holds) {
+						second = true
+					}
+				}
+				if second {
+					cls += ", another shard is degraded or lists metadata without data"
+				}
+				vrt.Assert(err != nil, "a removed or expired object is never returned, even when a shard fails ("+cls+")")
 			} else {
 				vrt.Assert(err != nil, "a removed or expired object is never returned")
 			}
